@@ -84,3 +84,47 @@ Fixpoint store_list (T : gty) (st : store) : option (list gval) :=
       | Some v => match store_list T r with Some l => Some (v :: l) | None => None end
       end
   end.
+
+(* ---------- operation histories ---------- *)
+Inductive sop := SUpdate (m : gval) | SGet (id : string) | SList.
+Inductive sres := RUpdate (ok : bool) | RGet (g : get_res) | RList (o : option (list gval)).
+
+Fixpoint run_store (T : gty) (st : store) (ops : list sop) : list sres :=
+  match ops with
+  | [] => []
+  | SUpdate m :: r =>
+      match store_update T st m with
+      | Some st' => RUpdate true :: run_store T st' r
+      | None => RUpdate false :: run_store T st r
+      end
+  | SGet id :: r => RGet (store_get T st id) :: run_store T st r
+  | SList :: r => RList (store_list T st) :: run_store T st r
+  end.
+
+(* the abstract specification: a map from swap id to the machine last written; reads return the
+   machine as a reload sees it (view) *)
+Definition amap := list (string * gval).
+
+Definition key_of (T : gty) (m : gval) : string :=
+  match machine_id T m with Some s => s | None => EmptyString end.
+
+Fixpoint run_spec (T : gty) (a : amap) (ops : list sop) : list sres :=
+  match ops with
+  | [] => []
+  | SUpdate m :: r => RUpdate true :: run_spec T (insert (key_of T m) m a) r
+  | SGet id :: r =>
+      RGet (match lookup (h2b id) a with Some m => GOk (view T m) | None => GNotFound end)
+      :: run_spec T a r
+  | SList :: r => RList (Some (map (fun p => view T (snd p)) a)) :: run_spec T a r
+  end.
+
+(* the machine's own id field is an active *SwapId *)
+Definition id_field_ok (T : gty) : bool :=
+  match T with
+  | TStruct _ fs =>
+      match find (fun p => String.eqb (f_go (fst p)) "SwapId") fs with
+      | Some (m, TPtr TSwapId) => active m
+      | _ => false
+      end
+  | _ => false
+  end.
